@@ -444,6 +444,8 @@ def run_sampler_case(case):
     sub = {Symbol(k): sympify(str(v)) for k, v in state.items()}
     vals = []
     seam_same = True
+    fp0 = rngseam.rng_fingerprint()
+    unscripted = False
     for u in us:
         c = One(u)
         rngseam.set_controller(c)
@@ -461,7 +463,11 @@ def run_sampler_case(case):
                 seam_same = False
         rv = law_r.quantile(u) if not law_r.is_point_mass() else law_r.points[0][0]
         vals.append((u, v, rv))
-        if not _close(v, rv, 1.0):
+        if rngseam.rng_fingerprint() != fp0:
+            # the sampler drew past the scripted seam: its value cannot be coupled to a quantile, only the support check applies
+            unscripted = True
+            fp0 = rngseam.rng_fingerprint()
+        elif not _close(v, rv, 1.0):
             problems.append({"kind": "quantile", "u": u, "polar": v, "ref": rv})
         if not _in_support(v, support, sub):
             problems.append({"kind": "support", "u": u, "value": v, "support": str(support)})
@@ -479,6 +485,8 @@ def run_sampler_case(case):
             if not (abs(mp - mr) <= 1e-7 * max(1.0, abs(mr))):
                 problems.append({"kind": "moment", "k": k, "analysis": mp, "sampler_law": mr})
     out["seam_same"] = seam_same
+    if unscripted:
+        out["notes"].append("unscripted randomness in the sampler: quantile comparison skipped, support check only")
     out["values"] = [[u, v] for u, v, _ in vals[:4]]
     out["digest"] = _digest([[u, v] for u, v, _ in vals])
     if problems:
